@@ -186,6 +186,8 @@ pub enum Action {
     Broadcast { ty: u8, id: u32 },
     Subscribe { topic: u8 },
     Publish { topic: u8, id: u32 },
+    /// publish `id` and `id + 1` on topic 1, one after the other, from the same handler
+    PublishTwice { id: u32 },
     UpWeakSender,
     UpWeakAddr,
     UpWeakCaller,
@@ -737,8 +739,14 @@ impl<const K: u8> Probe<K> {
                 };
                 ctxlog(CtxOp::Publish, ok)
             }
+            #[cfg(any(feature = "rt-tokio", feature = "rt-async"))]
+            Action::PublishTwice { id } => {
+                let a = ctx.publish(T1(id)).await.is_ok();
+                let b = ctx.publish(T1(id + 1)).await.is_ok();
+                ctxlog(CtxOp::Publish, a && b)
+            }
             #[cfg(not(any(feature = "rt-tokio", feature = "rt-async")))]
-            Action::Subscribe { .. } | Action::Publish { .. } => {}
+            Action::Subscribe { .. } | Action::Publish { .. } | Action::PublishTwice { .. } => {}
             Action::UpWeakSender => ctxlog(
                 CtxOp::UpWeakSender,
                 ctx.weak_sender::<Note>().upgrade().is_some(),
